@@ -97,6 +97,18 @@ func (h *hist) genSet(basis int) (kind string, set []Inst, shape string) {
 	if h.s.Regime == "v2" && h.rng.Intn(12) == 0 {
 		v2 = false // v1 after the require height: must be refused
 	}
+	if strings.HasPrefix(h.s.Regime, "boundary") {
+		// mostly what the regime at the tip admits, sometimes what it refuses
+		th := h.tipLedger().Height()
+		switch {
+		case th+1 < h.s.W.N.HardforkV2.AllowHeight:
+			v2 = h.rng.Intn(8) == 0
+		case th+1 >= h.s.W.N.HardforkV2.RequireHeight:
+			v2 = h.rng.Intn(10) != 0
+		default:
+			v2 = h.rng.Intn(2) == 0
+		}
+	}
 	kind = "v1"
 	if v2 {
 		kind = "v2"
@@ -376,8 +388,8 @@ func (h *hist) addBlock(parent int) int {
 						return
 					}
 				}
-				if !p.V2 && l.Height()+1 >= h.s.W.N.HardforkV2.RequireHeight {
-					return
+				if lo, hi := h.s.Window(p); int(l.Height()) < lo || int(l.Height()) > hi {
+					return // not valid in a child of this parent (hardfork regime / signature epoch)
 				}
 				for _, in := range p.Ins {
 					spentHere[in] = true
@@ -407,6 +419,11 @@ func (h *hist) addBlock(parent int) int {
 				sortElems(victims)
 				e := victims[h.rng.Intn(len(victims))]
 				v2 := h.s.Regime == "v2" || h.rng.Intn(2) == 0
+				if l.Height()+1 < h.s.W.N.HardforkV2.AllowHeight {
+					v2 = false
+				} else if l.Height()+1 >= h.s.W.N.HardforkV2.RequireHeight {
+					v2 = true
+				}
 				p := h.newTx(l, v2, []types.SiacoinElement{e}, 1)
 				b.AddPoolTx(p)
 			}
@@ -439,9 +456,11 @@ func (h *hist) addBlock(parent int) int {
 		}
 		for i := 0; i < ops; i++ {
 			if h.s.Regime == "v2" || h.rng.Intn(2) == 0 {
+				if !b.Do("sc2") {
+					b.Do("sc1")
+				}
+			} else if !b.Do("sc1") {
 				b.Do("sc2")
-			} else {
-				b.Do("sc1")
 			}
 		}
 	})
@@ -1111,9 +1130,14 @@ func (h *hist) scriptMixedInputs(k int) {
 	basis0 := h.x.Tip
 	h.x.Res.Count("set_mixed-inputs-scripted", 1)
 	h.x.AddSet("v2", basis0, []Inst{{T: parent.Name}, {T: child.Name}, {T: sibling.Name}, {T: three.Name}})
-	// a block that confirms ONLY the parent
+	// a block that confirms ONLY the parent; right after it -- before anybody looks at the pool -- the
+	// broadcast set of a GRANDCHILD (not submitted) is asked for: its pooled parent, the child, is still
+	// unconfirmed and must be part of the set
 	h.submit(h.blockOn(h.x.Tip, []*mat.PoolTx{parent}))
+	grand := h.newTx(h.tipLedger(), true, []types.SiacoinElement{outElem(child, 0)}, 1)
+	h.x.TxSetNow(grand.Name, h.x.Tip)
 	h.x.Obs()
+	h.x.TxSet(grand.Name, h.x.Tip)
 	h.x.AddSet("v2", basis0, []Inst{{T: child.Name}})
 	h.x.AddSet("v2", basis0, []Inst{{T: child.Name}, {T: sibling.Name}})
 	h.x.AddSet("v2", basis0, []Inst{{T: parent.Name}, {T: child.Name}, {T: sibling.Name}, {T: three.Name}})
@@ -1206,6 +1230,108 @@ func scriptKinds() []string {
 
 func scriptKind(k int) string { ks := scriptKinds(); return ks[k%len(ks)] }
 
+// scriptBoundary (seed classes C05-f, C14-f): the history sits exactly ON the hardfork boundaries.
+// The regime starts below the allow height; at every tip height from AllowHeight-2 to
+// RequireHeight+1 the pool is fed what the regime admits (and what it refuses) -- v2 transactions on
+// elements of various ages, v1 transactions signed in the current epoch --, every pooled id is looked
+// up through BOTH lookups, and heavier forks revert the boundary blocks (fork points AllowHeight-2 ..
+// AllowHeight+1, RequireHeight-2 ..) with the pool untouched by the blocks.
+func (h *hist) scriptBoundary(k int) {
+	h.plain = true
+	allow, require := int(h.s.W.N.HardforkV2.AllowHeight), int(h.s.W.N.HardforkV2.RequireHeight)
+	height := func() int { return int(h.tipLedger().Height()) }
+	avoid := map[types.Hash256]bool{}
+	// inputs of various ages: genesis outputs first (oldest leaves), recent ones last
+	pick := func(old bool) (types.SiacoinElement, bool) {
+		l := h.tipLedger()
+		var cands []types.SiacoinElement
+		for _, e := range h.s.W.SpendableSC(l) {
+			if !avoid[types.Hash256(e.ID)] && !h.pooledInputs()[types.Hash256(e.ID)] && e.SiacoinOutput.Value.Cmp(oneSC.Mul64(4)) > 0 {
+				cands = append(cands, e)
+			}
+		}
+		if len(cands) == 0 {
+			return types.SiacoinElement{}, false
+		}
+		// leaf index orders the elements by age
+		best := cands[0]
+		for _, e := range cands {
+			if (old && e.StateElement.LeafIndex < best.StateElement.LeafIndex) || (!old && e.StateElement.LeafIndex > best.StateElement.LeafIndex) {
+				best = e
+			}
+		}
+		if h.rng.Intn(3) == 0 {
+			best = cands[h.rng.Intn(len(cands))]
+		}
+		avoid[types.Hash256(best.ID)] = true
+		return best, true
+	}
+	feed := func() {
+		l := h.tipLedger()
+		// v1 first (so that v2 positions fall inside the v1 slice), then v2
+		var s1, s2 []Inst
+		for i := 0; i < 2; i++ {
+			if e, ok := pick(i == 0); ok {
+				s1 = append(s1, Inst{T: h.newTx(l, false, []types.SiacoinElement{e}, 1).Name})
+			}
+		}
+		for i := 0; i < 2+k%2; i++ {
+			if e, ok := pick(i != 1); ok {
+				p := h.newTx(l, true, []types.SiacoinElement{e}, 2)
+				s2 = append(s2, Inst{T: p.Name})
+				if i == 0 && spendable(p, 0) {
+					s2 = append(s2, Inst{T: h.newTx(l, true, []types.SiacoinElement{outElem(p, 0)}, 1).Name}) // a child
+				}
+			}
+		}
+		if len(s1) > 0 {
+			h.x.AddSet("v1", h.x.Tip, s1[:1])
+			if len(s1) > 1 {
+				h.x.AddSet("v1", h.x.Tip, s1[1:])
+			}
+		}
+		if len(s2) > 0 {
+			h.x.AddSet("v2", h.x.Tip, s2)
+		}
+		h.x.LookupSweep()
+	}
+	reorg := func(back, over int) {
+		// a fork `back` blocks below the tip that ends `over` blocks higher; its blocks leave the pool alone
+		fork := h.x.Tip
+		for i := 0; i < back && h.s.Abs(h.s.Node(fork).Parent) >= 1; i++ {
+			fork = h.s.Abs(h.s.Node(fork).Parent)
+		}
+		n := int(h.s.Node(h.x.Tip).Height-h.s.Node(fork).Height) + over
+		last := fork
+		for i := 0; i < n; i++ {
+			last = h.blockOn(last, nil, "sc1", "sc2", "sc1")
+		}
+		h.submit(last)
+		h.x.Obs()
+		h.x.LookupSweep()
+	}
+	for step := 0; step < 40 && height() <= require+1 && !h.x.dead; step++ {
+		ht := height()
+		near := (ht >= allow-2 && ht <= allow+1) || (ht >= require-2 && ht <= require+1)
+		if near {
+			feed()
+		}
+		switch {
+		case ht == allow-1 || ht == allow:
+			// revert the boundary block(s): fork points allow-2 / allow-1, one block longer
+			reorg(1+(k+ht)%2, 1)
+		case ht == allow+1 && k%2 == 0:
+			reorg(3, 1) // dips below the activation height in the middle of the reorg
+		case ht == require-1 || ht == require:
+			reorg(1+(k+ht)%2, 1)
+		default:
+			h.submit(h.blockOn(h.x.Tip, nil, "sc1", "sc2"))
+			h.x.Obs()
+		}
+	}
+	h.x.MineStep()
+}
+
 // scriptedRun plays one of the directed interplay histories.
 func (h *hist) scriptedRun(k int) {
 	if err := h.x.Reset(); err != nil {
@@ -1220,6 +1346,8 @@ func (h *hist) scriptedRun(k int) {
 		h.scriptMixedInputs(k / len(scriptKinds()))
 	case "cross-kind-eviction":
 		h.scriptCrossKindEviction(k / len(scriptKinds()))
+	case "boundary":
+		h.scriptBoundary(k)
 	}
 	if !h.x.dead {
 		h.x.Obs()
@@ -1278,6 +1406,9 @@ func TestDriver(t *testing.T) {
 				regime := "both"
 				if k%4 == 3 {
 					regime = "v2"
+				} else if k%4 == 1 {
+					// the history starts below the hardfork heights and crosses them
+					regime = fmt.Sprintf("boundary:%d:%d", 1+(k/4)%3, 2+(k/12)%3)
 				}
 				s := NewScen(regime, seed, 2)
 				s.Name = fmt.Sprintf("%s-history-%d-%s", mode, k, regime)
@@ -1292,6 +1423,11 @@ func TestDriver(t *testing.T) {
 				}
 				if scripted && scriptKind(k) == "cross-kind-eviction" {
 					regime = "both" // v1 and v2 in one pool
+				}
+				if scripted && scriptKind(k) == "boundary" {
+					regime = fmt.Sprintf("boundary:%d:%d", 1+k%2, 2+(k/2)%2)
+				} else if scripted && strings.HasPrefix(regime, "boundary") {
+					regime = "both"
 				}
 				if heavy || scripted {
 					s = NewScen(regime, seed, 2)
